@@ -22,7 +22,7 @@ TECHNIQUE = "stateless schedule exploration (DFS, prefix replay) over task steps
 RULE = (
     "one async scope with up to k spawned tasks from {ret after 0/1/2 pauses, raise after 0/1 "
     "pauses, spawn a grandchild, spawned via nested sync scope / update, re-spawn from its "
-    "cancellation handler}, optionally one disposable whose clean-up raises / suspends, body in {return, raise, "
+    "cancellation handler, consume an AsyncQueue the body feeds in its last step}, optionally one disposable whose clean-up raises / suspends, body in {return, raise, "
     "externally cancelled at any quiescent point}, with/without an outer scope; all "
     "interleavings, for <= 2 tasks also with two events landing in one loop iteration; a body that requests its own cancellation and returns / a task carrying an earlier handled request; plus spawn outside any scope (also in a second event loop); non-trivial = at least one spawned task was "
     "still running when the body ended, or a task failed"
@@ -45,6 +45,7 @@ SPAWNS = [
     {"kind": "ret", "pauses": 1, "via": "sscope"},
     {"kind": "ret", "pauses": 1, "via": "updated"},
     {"kind": "respawn", "pauses": 1},
+    {"kind": "queue", "pauses": 0},  # consumer of an AsyncQueue fed by the body right before it ends
 ]
 
 # disposables whose clean-up fails or suspends: leaving the block must still wait for / cancel
@@ -53,6 +54,7 @@ DISPOSABLES = [
     [],
     [{"enter": "ok", "exit": "raise", "yields": "none"}],
     [{"enter": "ok", "exit": "susp_ok", "yields": "none"}],
+    [{"enter": "ok", "exit": "ok", "yields": "none", "signals": True}],
 ]
 
 
@@ -115,6 +117,13 @@ def programs(tier: str):
                 p = _prog(combo, "return", 1, False, d)
                 p["fine"] = True
                 yield p
+    # a spawned task that only ends when a disposable of the same scope is closed: the resources
+    # are released before the block waits for its tasks
+    for n_wait in (1, 2):
+        for ending, cancels in (("return", 0), ("raise", 0), ("return", 1)):
+            p = _prog((), ending, cancels, False, 3)
+            p["block"]["spawns"] = [{"kind": "wait_dispose", "pauses": 0} for _ in range(n_wait)] + [dict(SPAWNS[1])]
+            yield p
     extra_k = kmax + 1
     pool = [0, 1, 3, 4, 5] if tier == "quick" else [1, 2, 4, 5]
     for combo in itertools.combinations_with_replacement(pool, extra_k):
